@@ -97,7 +97,7 @@ CHECKS = {
         category="model_checking", engine="E4",
         technique="process matrix: hash seeds x process histories (orders, repetitions, cold-import permutations, alone) with digest equality; order-coverage witness; reuse histories on component instances",
         text="9.4k calls (transpile from/to many dialects, tokenize, pretty, annotate, qualify, optimize, simplify / normalize / typed "
-             "simplify incl. multi-operand connectors, lineage) are executed in fresh interpreters for 16 (thorough 64) hash seeds in "
+             "simplify incl. multi-operand connectors, lineage) are executed in fresh interpreters for 24 (thorough 64) hash seeds in "
              "forward order, in reverse order, with every third call twice, in all 6 permutations of four cross-dialect groups of 3 "
              "(each permutation in its own cold process: import-order effects) and alone in a fresh process; every digest must equal the "
              "seed-0 forward cell. The evidence carries a witness of how many iteration orders of the relevant small sets the seeds "
